@@ -112,7 +112,8 @@ class HybridGibbs:
         self.samplers = sampling_strategy.copy()
 
         # Store number of sampling steps for each parameter
-        self.num_sampling_steps = num_sampling_steps
+        # (as a copy: missing entries are filled in below and the caller may go on using its dict)
+        self.num_sampling_steps = None if num_sampling_steps is None else dict(num_sampling_steps)
 
         # Store parameter names
         self.par_names = self.target.get_parameter_names()
